@@ -17,6 +17,7 @@ VARIANTS = {
     "base": dict(modules=["verif_common.rs"]),
     "big": dict(modules=["verif_common.rs"], big_arena=True),
     "macos": dict(modules=["verif_common.rs"], macos=True),
+    "long": dict(modules=["verif_common.rs"], cfgs=["verif_long_strings"]),
 }
 
 AMD = "injector_core/patch_amd64.rs"
@@ -294,9 +295,9 @@ def _alloc_builder(variant):
 
 
 _ALLOC_FN = [(COM, "allocate_jit_memory_unix")]
-VERUS["alloc_linux_x86_64"] = dict(props=["C11", "C12"], builder=_alloc_builder("linux_x86_64"), fns=_ALLOC_FN, expect_verified=11)
-VERUS["alloc_linux_aarch64"] = dict(props=["C11"], builder=_alloc_builder("linux_aarch64"), fns=_ALLOC_FN, expect_verified=11)
-VERUS["alloc_macos_aarch64"] = dict(props=["C11", "C15"], builder=_alloc_builder("macos_aarch64"), fns=_ALLOC_FN, expect_verified=11)
+VERUS["alloc_linux_x86_64"] = dict(props=["C11", "C12"], builder=_alloc_builder("linux_x86_64"), fns=_ALLOC_FN, expect_verified=10)
+VERUS["alloc_linux_aarch64"] = dict(props=["C11"], builder=_alloc_builder("linux_aarch64"), fns=_ALLOC_FN, expect_verified=10)
+VERUS["alloc_macos_aarch64"] = dict(props=["C11", "C15"], builder=_alloc_builder("macos_aarch64"), fns=_ALLOC_FN, expect_verified=10)
 VERUS["lemmas_history"] = dict(props=["C02", "C03", "C12"], builder=_lemma_builder("history.rs"), expect_verified=10, lemma=True)
 VERUS["lemmas_counting"] = dict(props=["C06"], builder=_lemma_builder("counting.rs"), expect_verified=4, lemma=True)
 VERUS["lemmas_reach"] = dict(props=["C11", "C15"], builder=_lemma_builder("reach.rs"), expect_verified=3, lemma=True)
@@ -427,3 +428,37 @@ claim("C17",
       trusted_base=[TB_KANI, TB_SHIM])
 for _p, _extra in (("C02", [TB_RUSTC]), ("C04", ["std::sync::Mutex: at most one guard at a time under every schedule (assumed library contract)"]), ("C07", [])):
     PROPS[_p]["trusted_base"] = PROPS[_p].get("trusted_base", []) + _extra
+
+for _h in ("c09_gate_raw", "c09_gate_pair", "c09_gate_async", "c09_gate_mixed", "c10_gate_unstructured"):
+    HARNESSES[_h]["variant_thorough"] = "long"
+
+# obligations that decide more than the property their name carries
+_ALLOC_SHARED = {"C11.alloc.inv.given-back": ["C12"], "C11.alloc.frame": ["C12"], "C11.alloc.clean-failure": ["C12"], "C11.alloc.unmap-own": ["C12"], "C11.alloc.unmap-len": ["C12"], "C11.alloc.fresh": ["C12"]}
+VERUS["alloc_linux_x86_64"]["shared"] = _ALLOC_SHARED
+HARNESSES["c05_verdict_after_restore"]["props"] += ["C02"]
+HARNESSES["c05_dropglue_panicking"]["props"] += ["C02"]
+HARNESSES["c05_dropglue_panicking"]["shared"] = {"C05.dropglue.restores": ["C02"], "C05.dropglue.releases": ["C02", "C12"], "C05.dropglue.unlocks": ["C02", "C04"]}
+HARNESSES["c05_dropglue_panicking"]["props"] += ["C12", "C04"]
+
+# ------------------------------------------------------------------------------------------------
+import gen_sigpairs  # noqa: E402
+
+
+def _sigpair_files(repo, skip=()):
+    _names, text = gen_sigpairs.generate()
+    return {"verif_sigpairs": dict(parent=INJ, dest="interface/injector/verif_sigpairs.rs", modline="mod verif_sigpairs;", text=text)}
+
+
+GENERATORS["sigpairs"] = _sigpair_files
+for _h, _which, _i, _j, _q in gen_sigpairs.generate()[0]:
+    H(_h, props=["C09", "C05"] + (["C14"] if _which == "async" else []), module_dest="interface/injector/verif_sigpairs.rs", generator="sigpairs", group="sigpairs", extra_modules=[MI, "verif_internal.rs"],
+      fns=[(INJ, {"raw": "will_execute_raw", "pair": "will_execute", "async": "will_return_async"}[_which])], expects_panic=(_i != _j), covers=(["COVER:end"] if _i == _j else []),
+      tiers=("quick", "thorough") if _q else ("thorough",),
+      replay=(lambda vals, verif, _a=gen_sigpairs.FAMILY[_i], _b=gen_sigpairs.FAMILY[_j], _e=(_i == _j): _replay_bin("c09_gate", [_a, _b, "accept" if _e else "refuse"], verif)),
+      bounded="enumerated family of %d function types: every ordered pair through the real will_execute_raw, diagonal + name-extension pairs through will_execute / will_return_async; concrete names" % len(gen_sigpairs.FAMILY))
+for _h in ("c09_gate_raw", "c09_gate_pair", "c09_gate_async", "c09_gate_mixed"):
+    HARNESSES[_h]["timeout"] = 400
+
+H("c11_alloc_twin", module="verif_common.rs", props=["C11", "C12"], fns=[(COM, "allocate_jit_memory"), (COM, "allocate_jit_memory_unix")], expects_panic=True,
+  covers=["COVER:end", "COVER:clipped-window", "COVER:two-rejections"], bounded="page size forced to 64 MiB so that the search makes at most 5 attempts (the unbounded proof is the Verus unit alloc_*)")
+HARNESSES["c11_alloc_twin"]["shared"] = {"C11.twin.frame": ["C12"]}
